@@ -9,7 +9,7 @@ cannot be parsed or executed is a violation ("parsing such a statement never fai
 
 Reader level: short histories of {read through feed f, mutate the storage, read through another feed over another
 database with equally named tables, restart the process keeping $FORML_HOME} against the real feeds (alchemy over sqlite
-files, monolite csv/inline); every read must equal the reference evaluation over the storage content *at read time*.
+files, monolite csv/inline/parquet); every read must equal the reference evaluation over the storage content *at read time*.
 """
 import collections
 import json
@@ -440,6 +440,9 @@ for step in job['steps']:
                 from forml.provider.feed import monolite
                 content = json.load(open(step['db']))
                 feed = monolite.Feed(inline={tables[n]: content[n] for n in ('A', 'B')})
+            elif step['feed'] == 'parquet':
+                from forml.provider.feed import monolite
+                feed = monolite.Feed(parquet={tables[n]: os.path.join(step['db'], n + '.parquet') for n in ('A', 'B')})
             else:
                 from forml.provider.feed import monolite
                 feed = monolite.Feed(csv={tables[n]: os.path.join(step['db'], n + '.csv') for n in ('A', 'B')})
@@ -480,6 +483,13 @@ def storage_write(kind, path, data):
     elif kind == 'inline':
         with open(path, 'w', encoding='utf-8') as fd:
             json.dump({n: [list(r) for r in data[n]] for n in ('A', 'B')}, fd)
+    elif kind == 'parquet':
+        import pandas
+
+        os.makedirs(path, exist_ok=True)
+        for name in ('A', 'B'):
+            columns = [c for c, _ in dslgen.SCHEMA[name]]
+            pandas.DataFrame([list(r) for r in data[name]], columns=columns).to_parquet(os.path.join(path, name + '.parquet'))
     else:
         import csv
 
@@ -507,10 +517,10 @@ def run_reader_history(ctx, index):
     rng = ctx.rng('history', index)
     workdir = tempfile.mkdtemp(prefix='c06-hist-')
     home = os.path.join(workdir, 'home')
-    kind = ['alchemy', 'inline', 'csv'][index % 3]
+    kind = ['alchemy', 'inline', 'csv', 'parquet'][index % 4]
     ctx.count(f'reader_histories_{kind}')
     try:
-        suffix = {'alchemy': '.sqlite', 'inline': '.json', 'csv': '.d'}[kind]
+        suffix = {'alchemy': '.sqlite', 'inline': '.json', 'csv': '.d', 'parquet': '.pq'}[kind]
         stores = {'f': os.path.join(workdir, 'f' + suffix), 'g': os.path.join(workdir, 'g' + suffix)}
         contents = {}
         for key, path in stores.items():
@@ -649,7 +659,7 @@ def run(ctx):
             check_statement(ctx, engines, ast, empty, 'emptyB')
     finally:
         engines.close()
-    total = ctx.pick(9, 180)
+    total = ctx.pick(12, 240)
     for index in range(total):
         if ctx.mine(index):
             run_reader_history(ctx, index)
